@@ -126,23 +126,30 @@ let verdict case impl =
       | [res; keys], [ps] ->
         let st = parse_state (String.sub cons 2 (String.length cons - 2)) in
         let ok = parse_keys keys in
-        let (mkeys, mr) = single_run st ps in
-        let mres = match mr with
-          | FCompleted (_, RRows (rows, next)) ->
-            "p" ^ (if rows = [] then "-" else String.concat "." (List.map hex_of_n rows)) ^ ":" ^ show_state next
-          | FCompleted (_, _) -> "pv"
-          | FIgnored _ -> "p-:N"
-          | FFailed e -> "e" ^ hex_of_n e in
-        (* the nodes of the attempts: a fresh plan, same-target retries stay, next-target
-           retries move to an unused node (C07_single_page_targets) *)
-        let nodes_fine = match parse_nodes keys with
-          | None -> false
-          | Some l -> l = [] || follows ps.ps_faults None [] (List.map snd l) in
-        if List.exists (fun (_, s) -> s <> st) ok then "viol single-page request without the caller's state spec=" ^ show_state st
-        else if parse_nodes keys = None then "error bad-keys"
-        else if res = mres && List.length ok = List.length mkeys && not nodes_fine then "diff coordinator-stability model=" ^ mres
-        else if res = mres && List.length ok = List.length mkeys then "ok"
-        else "diff model=" ^ mres ^ " " ^ show_keys mkeys
+        (match parse_nodes keys with
+         | None -> "error bad-keys"
+         | Some nl ->
+           let obs_res =
+             if res = "pv" then Some SVoid
+             else if String.length res > 1 && res.[0] = 'e' then Some (SErr (n_of_hex (String.sub res 1 (String.length res - 1))))
+             else if String.length res > 1 && res.[0] = 'p' then
+               (match split_on ':' (String.sub res 1 (String.length res - 1)) with
+                | [rows; nx] ->
+                  let rows = if rows = "-" then [] else List.map n_of_hex (split_on '.' rows) in
+                  Some (SRows (rows, parse_state nx))
+                | _ -> None)
+             else None in
+           (* ok only through accept_single (C07_accept_single_sound); viol only when the property
+              sentence -- every request carries the caller's state -- fails (prop_single_ok) *)
+           match obs_res with
+           | Some r when accept_single st ps r ok (List.map snd nl) -> "ok"
+           | _ ->
+             if not (prop_single_ok st ok) then "viol single-page request without the caller's state spec=" ^ show_state st
+             else
+               let (mkeys, mr) = single_run st ps in
+               "diff model=" ^ (match single_result mr with
+                   | SRows (rows, nx) -> "p" ^ (if rows = [] then "-" else String.concat "." (List.map hex_of_n rows)) ^ ":" ^ show_state nx
+                   | SVoid -> "pv" | SErr e -> "e" ^ hex_of_n e) ^ " " ^ show_keys mkeys)
       | _ -> "error bad-single-case"
     end else
     (match obs with
@@ -211,6 +218,13 @@ let verdict case impl =
        end
        else if acc && not coord_fine then "diff coordinator-stability model=" ^ model_string m script
        else if acc then "ok"
+       else if as_drop && has_t && accept_drop_timeout m script cnt oi ok then
+         (* C07_drop_timeout_sound; nodes judged like any drop case against the explaining script *)
+         (let coord_sc sc = m = MConn || (match parse_nodes keys with
+              | None -> false
+              | Some l -> (match List.rev (group_nodes l) with [] -> true | _ :: r -> coord_ok None sc (List.rev r))) in
+          if List.exists (fun sc -> accept_drop m sc cnt oi ok && not (ctor_fails m sc) && coord_sc sc) (early_timeouts script)
+          then "ok early-timeout" else "diff coordinator-stability (early-timeout) model=" ^ model_string m script)
        else if (not as_drop) && has_t && earlier_timeouts () then
          (* the nodes are judged against an environment that explains the observation *)
          (let coord_sc sc = m = MConn || (match parse_nodes keys with
